@@ -19,7 +19,7 @@
    parameters, no parameter called, no global variable named like a function. *)
 From Verif Require Import Lib.Base Model.Resolver Proofs.Resolver Proofs.ResolverSound
   Proofs.ResolverExact Proofs.ResolverOrder Proofs.ResolverFlat Proofs.ResolverNoPanic
-  Proofs.ResolverTopo Proofs.ResolverBound Proofs.ResolverLoop Proofs.ResolverMain Proofs.ResolverCutoff.
+  Proofs.ResolverTopo Proofs.ResolverBound Proofs.ResolverLoop Proofs.ResolverMain Proofs.ResolverCutoff Model.ResolverFrame Proofs.ResolverFrame.
 
 (* SOUND.  Whatever the processing order: if the resolver accepts, the types it
    returns satisfy every usage constraint, and every demand the compiler makes
@@ -172,6 +172,32 @@ Proof.
         (conj constant_limit_100_refuted (conj chain_accepted chain_accepted_impl))))).
 Qed.
 Print Assumptions C16_former_cutoff_witness.
+
+(* RUN-TIME CALL FRAME (interp/vm.go CallUser).  The array parameters a caller
+   does not supply get pairwise distinct slots beyond every existing array, each
+   holding an empty array; the supplied ones are exactly the caller's slots and
+   no existing array is touched. *)
+Theorem C16_missing_arrays_fresh : forall (A : Type) (empty : A) (args : list nat) (num_arrays : nat) (heap : list A),
+  (length args <= num_arrays)%nat ->
+  let (arr, heap') := call_arrays empty args num_arrays heap in
+  let fresh := skipn (length args) arr in
+  length fresh = (num_arrays - length args)%nat /\ NoDup fresh /\
+  (forall s, In s fresh -> (length heap <= s)%nat /\ nth_error heap' s = Some empty) /\
+  (forall i j si sj, nth_error fresh i = Some si -> nth_error fresh j = Some sj -> i <> j -> si <> sj).
+Proof. exact missing_arrays_fresh. Qed.
+Print Assumptions C16_missing_arrays_fresh.
+
+Theorem C16_frame_shape : forall (A : Type) (empty : A) (args : list nat) (num_arrays : nat) (heap : list A),
+  (length args <= num_arrays)%nat ->
+  let (arr, heap') := call_arrays empty args num_arrays heap in
+  length arr = num_arrays /\ firstn (length args) arr = args /\
+  (forall i, (i < length heap)%nat -> nth_error heap' i = nth_error heap i).
+Proof. exact frame_shape. Qed.
+Print Assumptions C16_frame_shape.
+
+(* function f(  a, b): two missing array parameters, p.arrays of length 3: slots 3 and 4 *)
+Example C16_ex_two_missing : call_arrays 0 [] 2 [7; 8; 9] = ([3; 4]%nat, [7; 8; 9; 0; 0]).
+Proof. reflexivity. Qed.
 
 (* non-vacuity *)
 Example C16_ex_oracle : perm_oracle (seed_oracle 3).
